@@ -239,7 +239,10 @@ def build(params: Any) -> tuple:
     elif ctx == "h2":
         client = [("cmd", 0, "preface"), ("cmd", 0, "headers", 1, h2_request_headers(b"POST", b"/a"), False),
                   ("cmd", 0, "headers", 3, h2_request_headers(b"GET", b"/b"), True),
-                  ("cmd", 0, "datan", 1, b"xy", True)]
+                  ("cmd", 0, "datan", 1, b"xy", True),
+                  # ... and the client goes on living: a connection-level WINDOW_UPDATE and a SETTINGS change of the
+                  # initial window walk over whatever bookkeeping the failed stream left behind
+                  ("cmd", 0, "winup", 0, 1000), ("cmd", 0, "settings", {4: 70000})]
         conn = {"carrier": "h2", "tls": True, "alpn": "h2"}
         apps = {"http:/a": prog, "http:/b": HEALTHY, "http:/c": HEALTHY_NOGATE}
         app_src = [("release", "gb")]
